@@ -68,6 +68,71 @@ def oracle(pairs, outs, rng):
     return None
 
 
+def search_leg(chk, rng, tier):
+    """the distances reported by Collection.Search (every mode) are those of the distance functions compared above:
+    small collections of exactly stored vectors (quantisation 64), queries = zero vector, stored vectors, their opposites and random ones"""
+    from searchlib import SearchCase, parse_res, rand_vec
+    import props_lsh
+    path = os.path.join(WORK, 'data', 'c06_search_%05d.dat' % (os.getpid() % 100000))
+    os.makedirs(os.path.dirname(path), exist_ok=True)
+    n_checked = 0
+    for ci in range(6 if tier == 'quick' else 120):
+        dim = rng.choice([1, 2, 3, 7])
+        metric = ci % 2
+        c = SearchCase(dim, 64, metric, 0)
+        vecs = {}
+        for id_ in range(1, rng.choice([2, 9, 30]) + 1):
+            v = [0.0] * dim if rng.random() < 0.15 else rand_vec(rng, dim, 64)
+            vecs[id_] = v
+            c.add(id_, v, b'm')
+        queries = [[0.0] * dim, list(vecs[1]), [-x for x in vecs[1]], [x * 4 for x in vecs[1]]] + [rand_vec(rng, dim, 64) for _ in range(3)]
+        plan = []
+        for qv in queries:
+            for K, R, exact in ((1000, 0.0, True), (1000, 0.0, False), (0, 1.0 if metric == 1 else 1e6, False), (1, 0.0, True)):
+                c.search(K, R, exact, 0, 1, 0, qv)
+                plan.append((qv, K, R, exact))
+        lines, rc, err = run_harness(['search', path], c.text(), timeout=300)
+        if rc != 0 or any(l.startswith('PANIC') for l in lines):
+            return {'what': 'Search died or panicked: %s %s' % ([l for l in lines if l.startswith('PANIC')][:1], err[-300:]), 'commands': c.cmds, 'signature': 'dist:search:died'}, n_checked
+        res = [it for it in props_lsh.split_outputs(lines) if it[0] == 'res']
+        if len(res) != len(plan):
+            return {'what': 'Search produced %d answers for %d searches' % (len(res), len(plan)), 'commands': c.cmds, 'signature': 'dist:search:count'}, n_checked
+        want_in = []
+        for (qv, K, R, exact), it in zip(plan, res):
+            for id_, db, mh in parse_res(it[1])[1]:
+                want_in.append((qv, vecs.get(id_), db, id_, K, R, exact))
+        text = ''.join('d %d %s %s\n' % (len(a), ' '.join(str(bits(x)) for x in a), ' '.join(str(bits(x)) for x in b)) for a, b, _, _, _, _, _ in want_in if b is not None)
+        dl, rc2, _ = run_harness(['dist'], text, timeout=300)
+        k = 0
+        for qv, v, db, id_, K, R, exact in want_in:
+            if v is None:
+                continue
+            e_bits, c_bits = [int(x) for x in dl[k].split()[1:3]]
+            k += 1
+            n_checked += 1
+            ref = c_bits if metric == 1 else e_bits
+            d = unbits(db)
+            why = None
+            if math.isnan(d) or math.isinf(d) or d < 0:
+                why = 'Search reported the distance %r (not a finite non-negative number)' % d
+            elif db != ref:
+                why = 'Search reported distance bits %d for document %d, the distance function gives %d' % (db, id_, ref)
+            if why:
+                return {'what': why, 'commands': c.cmds[:1 + len(vecs)] + ['search %d %d %d 0 1 0 0 0 %s' % (K, bits(R), 1 if exact else 0, ' '.join(str(bits(x)) for x in qv))],
+                        'signature': 'dist:search:' + why[:30]}, n_checked
+        # an exact search for a stored non-degenerate vector returns that document first with distance ~0
+        (qv, K, R, exact), it = plan[4], res[4]
+        rows = parse_res(it[1])[1]
+        if (metric == 0 or any(x != 0 for x in qv)) and (not rows or unbits(rows[0][1]) > 1e-7):
+            return {'what': 'an exact search for the stored vector of document 1 does not return a document at distance ~0 first: %s' % (rows[:2],), 'commands': c.cmds[:1 + len(vecs)],
+                    'signature': 'dist:search:self'}, n_checked
+    try:
+        os.remove(path)
+    except OSError:
+        pass
+    return None, n_checked
+
+
 def check(tier, seed, replay=None):
     chk = Check('C06', tier, seed)
     build = build_all()
@@ -163,6 +228,13 @@ def check(tier, seed, replay=None):
                     chk.violation({'engine': 'dist', 'what': 'cosine distance changes under positive scaling', 'cases': [{'a_bits': [bits(x) for x in a], 'b_bits': [bits(x) for x in b]}], 'signature': 'dist:scale'})
                     nviol += 1
                     break
+        if nviol == 0 and replay is None:
+            sv, nsearch = search_leg(chk, rng, tier)
+            chk.cov['search_distances_compared'] = nsearch
+            if sv:
+                sv['engine'] = 'dist-search'
+                if chk.violation(sv):
+                    nviol += 1
         # ---- correspondence (vm_compute): distances and acos bit for bit
         t0 = time.time()
         shard = 4000
@@ -201,7 +273,7 @@ def check(tier, seed, replay=None):
         elif broken:
             chk.violation({'engine': 'proof', 'unproved': broken, 'what': 'a proof obligation no longer checks; no failing input found'}, tag='proof', no_input=True)
     chk.cov.update({'programs': len(runs), 'evaluations': len(runs) + len(acos_args), 'distinct_nontrivial': len(pairs),
-                    'rule': 'pairs of vectors of dimension 1..64: identical, parallel, anti-parallel, nearly parallel (one-ulp perturbations), zero vectors, vectors on the 4/8/16-bit grids, magnitudes 2^-500..2^500, each also swapped; triples for the triangle inequality; acos arguments incl. every float within 64 ulps of the branch points',
+                    'rule': 'pairs of vectors of dimension 1..64: identical, parallel, anti-parallel, nearly parallel (one-ulp perturbations), zero vectors, vectors on the 4/8/16-bit grids, magnitudes 2^-500..2^500, each also swapped; triples for the triangle inequality; acos arguments incl. every float within 64 ulps of the branch points; every distance reported by Collection.Search (exact, default, radius; zero, stored, opposite, scaled and random queries) is compared bit for bit with the distance function',
                     'disagreements_checked': len(runs), 'samples': [{'a': a, 'b': b, 'implementation_bits': list(o)} for (a, b), o in list(zip(runs, outs))[:3]],
                     'correspondence': 'model and implementation agree bit for bit' if corr is None else 'DIVERGED', 'proof_obligations_broken': broken})
     chk.assumptions = [NOTE]
